@@ -435,7 +435,7 @@ H_Eq(e) ==
 (***************************************************************************)
 \* chain state: E contents, mode, ek = identity of the key object the handle still owns,
 \* drops, ok = every observation so far matched, added = a new key was inserted, fn = closure calls
-C0(E, ek) == [E |-> E, mode |-> "E", ek |-> ek, drops |-> {}, ok |-> TRUE, added |-> FALSE, fn |-> 0, bad |-> 0]
+C0(E, ek) == [E |-> E, mode |-> "E", ek |-> ek, drops |-> {}, ok |-> TRUE, added |-> FALSE, fn |-> 0, bad |-> 0, rm |-> 0]
 Obs(C, i, o, cond) == [C EXCEPT !.ok = C.ok /\ ~HasF(o, "na") /\ cond,
                                 !.bad = IF C.bad = 0 /\ ~(~HasF(o, "na") /\ cond) THEN i ELSE C.bad]
 EStep(C0_, kk, m, o, vid, i) ==
@@ -448,7 +448,7 @@ EStep(C0_, kk, m, o, vid, i) ==
         \* f(k, v) -> Some(v') keeps the objects, None drops the value; the key moves to the vacant handle
         ReplaceWith ==
             IF some THEN Obs([C EXCEPT !.E = Put(C.E, <<kk, m.some, el[3], el[4]>>), !.mode = "E", !.fn = @ + 1], i, o, TRUE)
-            ELSE Obs([C EXCEPT !.E = Without(C.E, kk), !.mode = "E", !.fn = @ + 1,
+            ELSE Obs([C EXCEPT !.E = Without(C.E, kk), !.mode = "E", !.fn = @ + 1, !.rm = @ + 1,
                                !.drops = @ \cup NZ({el[4], C.ek}), !.ek = el[3]], i, o, TRUE)
     IN
     CASE C.mode = "E" /\ name = "key" ->
@@ -479,10 +479,10 @@ EStep(C0_, kk, m, o, vid, i) ==
       [] C.mode = "O" /\ name = "o_insert" ->
              Obs([C EXCEPT !.E = Put(C.E, <<kk, m.v, el[3], vid>>)], i, o, o.rv = el[2] /\ o.rvid = el[4])
       [] C.mode = "O" /\ name = "o_remove" ->
-             Obs([C EXCEPT !.E = Without(C.E, kk), !.mode = "D", !.drops = @ \cup NZ({el[3], C.ek}), !.ek = 0], i, o,
+             Obs([C EXCEPT !.E = Without(C.E, kk), !.mode = "D", !.rm = @ + 1, !.drops = @ \cup NZ({el[3], C.ek}), !.ek = 0], i, o,
                  o.rv = el[2] /\ o.rvid = el[4])
       [] C.mode = "O" /\ name = "o_remove_entry" ->
-             Obs([C EXCEPT !.E = Without(C.E, kk), !.mode = "D", !.drops = @ \cup NZ({C.ek}), !.ek = 0], i, o,
+             Obs([C EXCEPT !.E = Without(C.E, kk), !.mode = "D", !.rm = @ + 1, !.drops = @ \cup NZ({C.ek}), !.ek = 0], i, o,
                  o.rk = kk /\ o.rkid = el[3] /\ o.rv = el[2] /\ o.rvid = el[4])
       [] C.mode = "O" /\ name = "o_replace_entry" ->
              Obs([C EXCEPT !.E = Put(C.E, <<kk, m.v, C.ek, vid>>), !.mode = "D", !.ek = 0], i, o,
@@ -522,7 +522,7 @@ H_Entry(e) ==
         /\ DropsAre(e, drops)
         /\ Chk("C12", "entry_closure_calls", e, e.cost.fn = F.fn)
         /\ IF F.added
-           THEN /\ CostKeyAdd(e, s, IF wasOld THEN 1 ELSE 0) /\ CapMono(e, s)
+           THEN /\ CostKeyAdd(e, s, IF wasOld THEN 1 ELSE 0) /\ (F.rm = 0 => CapMono(e, s))
                 /\ Chk("C03", "moves_min_R_remaining", e,
                        IsSplit(Pre(s)) =>
                            LET rem == Pre(s).oI - (IF wasOld THEN 1 ELSE 0) IN
@@ -546,7 +546,7 @@ RStep(C0_, kk, m, o, ids, i) ==
         NotApplicable == [C EXCEPT !.ok = C.ok /\ HasF(o, "na"), !.bad = IF C.bad = 0 /\ ~HasF(o, "na") THEN i ELSE C.bad]
         ReplaceWith ==
             IF some THEN Obs([C EXCEPT !.E = Put(C.E, <<kk, m.some, el[3], el[4]>>), !.mode = "E", !.fn = @ + 1], i, o, TRUE)
-            ELSE Obs([C EXCEPT !.E = Without(C.E, kk), !.mode = "E", !.fn = @ + 1,
+            ELSE Obs([C EXCEPT !.E = Without(C.E, kk), !.mode = "E", !.fn = @ + 1, !.rm = @ + 1,
                                !.drops = @ \cup NZ({el[3], el[4]})], i, o, TRUE)
     IN
     CASE C.mode = "E" /\ name = "insert" ->
@@ -578,10 +578,10 @@ RStep(C0_, kk, m, o, ids, i) ==
       [] C.mode = "O" /\ name = "o_insert_key" ->
              Obs([C EXCEPT !.E = Put(C.E, <<kk, el[2], nk, el[4]>>)], i, o, o.rk = kk /\ o.rkid = el[3])
       [] C.mode = "O" /\ name = "o_remove" ->
-             Obs([C EXCEPT !.E = Without(C.E, kk), !.mode = "D", !.drops = @ \cup NZ({el[3]})], i, o,
+             Obs([C EXCEPT !.E = Without(C.E, kk), !.mode = "D", !.rm = @ + 1, !.drops = @ \cup NZ({el[3]})], i, o,
                  o.rv = el[2] /\ o.rvid = el[4])
       [] C.mode = "O" /\ name = "o_remove_entry" ->
-             Obs([C EXCEPT !.E = Without(C.E, kk), !.mode = "D"], i, o,
+             Obs([C EXCEPT !.E = Without(C.E, kk), !.mode = "D", !.rm = @ + 1], i, o,
                  o.rk = kk /\ o.rkid = el[3] /\ o.rv = el[2] /\ o.rvid = el[4])
       [] C.mode = "O" /\ name = "o_replace_entry_with" -> ReplaceWith
       [] C.mode = "V" /\ name \in {"v_insert", "v_insert_hashed", "v_insert_with_hasher"} ->
@@ -605,7 +605,7 @@ H_RawEntry(e) ==
     /\ (BothFull(e, s) /\ ~Panicked(e)) =>
         LET C == [C0(Cont(Pre(s)), 0) EXCEPT !.mode = "E"]
             F == RFold([E |-> C.E, mode |-> "E", ek |-> 0, drops |-> {}, ok |-> TRUE, added |-> FALSE,
-                        fn |-> 0, bad |-> 0, h2 |-> FALSE], e, e.k, 1)
+                        fn |-> 0, bad |-> 0, h2 |-> FALSE, rm |-> 0], e, e.k, 1)
             wasOld == Has(OldE(Pre(s)), e.k)
             h0 == IF e.via = "key" THEN 1 ELSE 0
         IN
@@ -614,7 +614,7 @@ H_RawEntry(e) ==
         /\ DropsAre(e, F.drops)
         /\ Chk("C12", "raw_entry_closure_calls", e, e.cost.fn = F.fn)
         /\ IF F.added
-           THEN /\ CostKeyAdd(e, s, IF wasOld THEN 1 ELSE 0) /\ CapMono(e, s)
+           THEN /\ CostKeyAdd(e, s, IF wasOld THEN 1 ELSE 0) /\ (F.rm = 0 => CapMono(e, s))
                 /\ Chk("C03", "moves_min_R_remaining", e,
                        IsSplit(Pre(s)) =>
                            LET rem == Pre(s).oI - (IF wasOld THEN 1 ELSE 0) IN
